@@ -44,6 +44,16 @@ macro_rules! c08_t {
     };
 }
 
+macro_rules! c08_tm {
+    ($name:ident, $($fam:tt)*) => {
+        harness! {
+            /// kind=bounded tier=thorough bound="slice len<=6 (elements symbolic); windows size 1..=7; chunk size 2..=7 (size 1 in the _n1 twin); array chunk N fixed per harness; walk to exhaustion + 1 step, each step front/back and original/copy/reversed symbolic (all three mixed in one walk)"
+            #[kani::unwind(10)]
+            fn $name(s) { c08_body!(s, 6, $($fam)*) }
+        }
+    };
+}
+
 // ---------------------------------------------------------------------------
 // helpers
 
@@ -82,7 +92,7 @@ fn mk_unit<S: Src, const N: usize>(_s: &mut S) -> [(); N] {
 /// Size modes: `sized` = 1..=L+1 with L+1 steps; `sized2` = 2..=L+1 with ceil(L/2)+1 steps;
 /// `size1` = 1 with L+1 steps; `unsized` = no size, L+1 steps.
 macro_rules! c08_lock {
-    ($s:ident, $L:expr, $t:ty, $mk:ident, $sized:ident,
+    ($s:ident, $L:expr, $mode:ident, $t:ty, $mk:ident, $sized:ident,
      k = |$ksl:ident, $kn:ident| $k:expr,
      st = |$ssl:ident, $sn:ident| $st:expr,
      item = $same:path,
@@ -93,6 +103,8 @@ macro_rules! c08_lock {
     ) => {{
         const L: usize = $L;
         const STEPS: usize = c08_lock!(@steps $sized, L);
+        const HAS_FWD: bool = c08_lock!(@fwd $mode);
+        const HAS_REV: bool = c08_lock!(@rev $mode);
         let arr: [$t; L] = $mk::<_, L>($s);
         let len = $s.upto(L);
         let sl: &[$t] = &arr[..len];
@@ -115,12 +127,12 @@ macro_rules! c08_lock {
                 chk!($s, $vrem, $n_vrem);
             })*
             let front = $s.bool();
-            let via = $s.upto(2);
+            let via: usize = if HAS_FWD && HAS_REV { $s.upto(2) } else if HAS_FWD { $s.upto(1) } else { 2 };
             let so = if front { st.next() } else { st.next_back() };
             let c = k.copy();
             // via 0: the iterator itself; 1: a copy of it; 2: a reversed copy, stepped at the other end
-            let src = if via == 1 { c.copy() } else { k };
-            let res = if via == 2 {
+            let src = if HAS_FWD && via == 1 { c.copy() } else { k };
+            let res = if HAS_REV && via == 2 {
                 let r = src.rev();
                 match (if front { r.next_back() } else { r.next() }) {
                     Some((it, nx)) => Some((it, nx.rev())),
@@ -171,7 +183,7 @@ macro_rules! c08_lock {
         chk!($s, none_seen, "C08.walk.exhausted_within_bound");
         chk!($s, !some_after_none, "C08.walk.no_item_after_end");
         cov!($s, nf >= 1 && nb >= 1 && none_seen, "C08.cover.mixed_front_back_to_exhaustion");
-        cov!($s, via_copy && via_rev && nf >= 1 && nb >= 1, "C08.cover.continued_through_copy_and_rev");
+        cov!($s, (via_copy || !HAS_FWD) && (via_rev || !HAS_REV) && nf >= 1 && nb >= 1, "C08.cover.continued_through_copy_and_rev");
         cov!($s, { let ($cl, $cn) = (len, size); $case }, "C08.cover.family_case");
         cov!($s, len == 0, "C08.cover.empty_slice");
     }};
@@ -187,14 +199,20 @@ macro_rules! c08_lock {
     }};
     (@size size1, $s:ident, $L:expr) => { 1usize };
     (@size unsized, $s:ident, $L:expr) => { 1usize };
+    (@fwd fwd) => { true };
+    (@fwd rev) => { false };
+    (@fwd mix) => { true };
+    (@rev fwd) => { false };
+    (@rev rev) => { true };
+    (@rev mix) => { true };
     (@steps sized2, $L:expr) => { ($L + 1) / 2 + 1 };
     (@steps $other:ident, $L:expr) => { $L + 1 };
 }
 
 /// One arm per iterator family: constructors, item comparison, accessor comparisons, obligation names.
 macro_rules! c08_body {
-    ($s:ident, $L:expr, iter, $sized:ident, $t:ty, $mk:ident) => {
-        c08_lock!($s, $L, $t, $mk, $sized,
+    ($s:ident, $L:expr, iter, $mode:ident, $sized:ident, $t:ty, $mk:ident) => {
+        c08_lock!($s, $L, $mode, $t, $mk, $sized,
             k = |sl, n| slice::iter(sl),
             st = |sl, n| sl.iter(),
             item = same_ref,
@@ -204,8 +222,8 @@ macro_rules! c08_body {
             case = |len, n| len == $L
         )
     };
-    ($s:ident, $L:expr, iter_copied, $sized:ident, $t:ty, $mk:ident) => {
-        c08_lock!($s, $L, $t, $mk, $sized,
+    ($s:ident, $L:expr, iter_copied, $mode:ident, $sized:ident, $t:ty, $mk:ident) => {
+        c08_lock!($s, $L, $mode, $t, $mk, $sized,
             k = |sl, n| slice::iter_copied(sl),
             st = |sl, n| sl.iter().copied(),
             item = same_val,
@@ -216,8 +234,8 @@ macro_rules! c08_body {
             case = |len, n| len == $L
         )
     };
-    ($s:ident, $L:expr, windows, $sized:ident, $t:ty, $mk:ident) => {
-        c08_lock!($s, $L, $t, $mk, $sized,
+    ($s:ident, $L:expr, windows, $mode:ident, $sized:ident, $t:ty, $mk:ident) => {
+        c08_lock!($s, $L, $mode, $t, $mk, $sized,
             k = |sl, n| slice::windows(sl, n),
             st = |sl, n| sl.windows(n),
             item = same_sl,
@@ -227,8 +245,8 @@ macro_rules! c08_body {
             case = |len, n| n == 3 && len == $L
         )
     };
-    ($s:ident, $L:expr, chunks, $sized:ident, $t:ty, $mk:ident) => {
-        c08_lock!($s, $L, $t, $mk, $sized,
+    ($s:ident, $L:expr, chunks, $mode:ident, $sized:ident, $t:ty, $mk:ident) => {
+        c08_lock!($s, $L, $mode, $t, $mk, $sized,
             k = |sl, n| slice::chunks(sl, n),
             st = |sl, n| sl.chunks(n),
             item = same_sl,
@@ -238,8 +256,8 @@ macro_rules! c08_body {
             case = |len, n| (n == 1 && len == $L) || (n >= 2 && len % n != 0 && len / n >= 2)
         )
     };
-    ($s:ident, $L:expr, rchunks, $sized:ident, $t:ty, $mk:ident) => {
-        c08_lock!($s, $L, $t, $mk, $sized,
+    ($s:ident, $L:expr, rchunks, $mode:ident, $sized:ident, $t:ty, $mk:ident) => {
+        c08_lock!($s, $L, $mode, $t, $mk, $sized,
             k = |sl, n| slice::rchunks(sl, n),
             st = |sl, n| sl.rchunks(n),
             item = same_sl,
@@ -249,8 +267,8 @@ macro_rules! c08_body {
             case = |len, n| (n == 1 && len == $L) || (n >= 2 && len % n != 0 && len / n >= 2)
         )
     };
-    ($s:ident, $L:expr, chunks_exact, $sized:ident, $t:ty, $mk:ident) => {
-        c08_lock!($s, $L, $t, $mk, $sized,
+    ($s:ident, $L:expr, chunks_exact, $mode:ident, $sized:ident, $t:ty, $mk:ident) => {
+        c08_lock!($s, $L, $mode, $t, $mk, $sized,
             k = |sl, n| slice::chunks_exact(sl, n),
             st = |sl, n| sl.chunks_exact(n),
             item = same_sl,
@@ -260,8 +278,8 @@ macro_rules! c08_body {
             case = |len, n| (n == 1 && len == $L) || (n >= 2 && len % n != 0 && len / n >= 2)
         )
     };
-    ($s:ident, $L:expr, rchunks_exact, $sized:ident, $t:ty, $mk:ident) => {
-        c08_lock!($s, $L, $t, $mk, $sized,
+    ($s:ident, $L:expr, rchunks_exact, $mode:ident, $sized:ident, $t:ty, $mk:ident) => {
+        c08_lock!($s, $L, $mode, $t, $mk, $sized,
             k = |sl, n| slice::rchunks_exact(sl, n),
             st = |sl, n| sl.rchunks_exact(n),
             item = same_sl,
@@ -273,8 +291,8 @@ macro_rules! c08_body {
     };
     // std's `array_chunks` is gone from the toolchain; its stable successor is `as_chunks::<N>()`:
     // the items are `as_chunks().0.iter()`, the remainder is `as_chunks().1`.
-    ($s:ident, $L:expr, array_chunks $n:literal, $sized:ident, $t:ty, $mk:ident) => {
-        c08_lock!($s, $L, $t, $mk, $sized,
+    ($s:ident, $L:expr, array_chunks $n:literal, $mode:ident, $sized:ident, $t:ty, $mk:ident) => {
+        c08_lock!($s, $L, $mode, $t, $mk, $sized,
             k = |sl, n| slice::array_chunks::<$t, $n>(sl),
             st = |sl, n| sl.as_chunks::<$n>().0.iter(),
             item = same_arr,
@@ -288,51 +306,106 @@ macro_rules! c08_body {
 }
 
 // ---------------------------------------------------------------------------
-// quick tier: L = 6, u8 and the zero-sized ()
+// quick tier: L = 6; u8 and the zero-sized (); `_fwd` = original/copy walks, `_rev` = walks through the `*Rev` type
 
-c08_q! {c08_iter_u8, iter, unsized, u8, mk_u8}
-c08_q! {c08_iter_zst, iter, unsized, (), mk_unit}
-c08_q! {c08_iter_copied_u8, iter_copied, unsized, u8, mk_u8}
-c08_q! {c08_iter_copied_zst, iter_copied, unsized, (), mk_unit}
-c08_q! {c08_windows_u8, windows, sized, u8, mk_u8}
-c08_q! {c08_windows_zst, windows, sized, (), mk_unit}
-c08_q! {c08_chunks_u8, chunks, sized2, u8, mk_u8}
-c08_q! {c08_chunks_u8_n1, chunks, size1, u8, mk_u8}
-c08_q! {c08_chunks_zst, chunks, sized2, (), mk_unit}
-c08_q! {c08_chunks_zst_n1, chunks, size1, (), mk_unit}
-c08_q! {c08_rchunks_u8, rchunks, sized2, u8, mk_u8}
-c08_q! {c08_rchunks_u8_n1, rchunks, size1, u8, mk_u8}
-c08_q! {c08_rchunks_zst, rchunks, sized2, (), mk_unit}
-c08_q! {c08_rchunks_zst_n1, rchunks, size1, (), mk_unit}
-c08_q! {c08_chunks_exact_u8, chunks_exact, sized2, u8, mk_u8}
-c08_q! {c08_chunks_exact_u8_n1, chunks_exact, size1, u8, mk_u8}
-c08_q! {c08_chunks_exact_zst, chunks_exact, sized2, (), mk_unit}
-c08_q! {c08_chunks_exact_zst_n1, chunks_exact, size1, (), mk_unit}
-c08_q! {c08_rchunks_exact_u8, rchunks_exact, sized2, u8, mk_u8}
-c08_q! {c08_rchunks_exact_u8_n1, rchunks_exact, size1, u8, mk_u8}
-c08_q! {c08_rchunks_exact_zst, rchunks_exact, sized2, (), mk_unit}
-c08_q! {c08_rchunks_exact_zst_n1, rchunks_exact, size1, (), mk_unit}
-c08_q! {c08_array_chunks1_u8, array_chunks 1, unsized, u8, mk_u8}
-c08_q! {c08_array_chunks2_u8, array_chunks 2, unsized, u8, mk_u8}
-c08_q! {c08_array_chunks3_u8, array_chunks 3, unsized, u8, mk_u8}
-c08_q! {c08_array_chunks2_zst, array_chunks 2, unsized, (), mk_unit}
+c08_q! {c08_iter_u8_fwd, iter, fwd, unsized, u8, mk_u8}
+c08_q! {c08_iter_u8_rev, iter, rev, unsized, u8, mk_u8}
+c08_q! {c08_iter_zst_fwd, iter, fwd, unsized, (), mk_unit}
+c08_q! {c08_iter_zst_rev, iter, rev, unsized, (), mk_unit}
+c08_q! {c08_iter_copied_u8_fwd, iter_copied, fwd, unsized, u8, mk_u8}
+c08_q! {c08_iter_copied_u8_rev, iter_copied, rev, unsized, u8, mk_u8}
+c08_q! {c08_iter_copied_zst_fwd, iter_copied, fwd, unsized, (), mk_unit}
+c08_q! {c08_iter_copied_zst_rev, iter_copied, rev, unsized, (), mk_unit}
+c08_q! {c08_windows_u8_fwd, windows, fwd, sized, u8, mk_u8}
+c08_q! {c08_windows_u8_rev, windows, rev, sized, u8, mk_u8}
+c08_q! {c08_windows_zst_fwd, windows, fwd, sized, (), mk_unit}
+c08_q! {c08_windows_zst_rev, windows, rev, sized, (), mk_unit}
+c08_q! {c08_chunks_u8_fwd, chunks, fwd, sized2, u8, mk_u8}
+c08_q! {c08_chunks_u8_rev, chunks, rev, sized2, u8, mk_u8}
+c08_q! {c08_chunks_zst_fwd, chunks, fwd, sized2, (), mk_unit}
+c08_q! {c08_chunks_zst_rev, chunks, rev, sized2, (), mk_unit}
+c08_q! {c08_chunks_n1_u8_fwd, chunks, fwd, size1, u8, mk_u8}
+c08_q! {c08_chunks_n1_u8_rev, chunks, rev, size1, u8, mk_u8}
+c08_q! {c08_chunks_n1_zst_fwd, chunks, fwd, size1, (), mk_unit}
+c08_q! {c08_chunks_n1_zst_rev, chunks, rev, size1, (), mk_unit}
+c08_q! {c08_rchunks_u8_fwd, rchunks, fwd, sized2, u8, mk_u8}
+c08_q! {c08_rchunks_u8_rev, rchunks, rev, sized2, u8, mk_u8}
+c08_q! {c08_rchunks_zst_fwd, rchunks, fwd, sized2, (), mk_unit}
+c08_q! {c08_rchunks_zst_rev, rchunks, rev, sized2, (), mk_unit}
+c08_q! {c08_rchunks_n1_u8_fwd, rchunks, fwd, size1, u8, mk_u8}
+c08_q! {c08_rchunks_n1_u8_rev, rchunks, rev, size1, u8, mk_u8}
+c08_q! {c08_rchunks_n1_zst_fwd, rchunks, fwd, size1, (), mk_unit}
+c08_q! {c08_rchunks_n1_zst_rev, rchunks, rev, size1, (), mk_unit}
+c08_q! {c08_chunks_exact_u8_fwd, chunks_exact, fwd, sized2, u8, mk_u8}
+c08_q! {c08_chunks_exact_u8_rev, chunks_exact, rev, sized2, u8, mk_u8}
+c08_q! {c08_chunks_exact_zst_fwd, chunks_exact, fwd, sized2, (), mk_unit}
+c08_q! {c08_chunks_exact_zst_rev, chunks_exact, rev, sized2, (), mk_unit}
+c08_q! {c08_chunks_exact_n1_u8_fwd, chunks_exact, fwd, size1, u8, mk_u8}
+c08_q! {c08_chunks_exact_n1_u8_rev, chunks_exact, rev, size1, u8, mk_u8}
+c08_q! {c08_chunks_exact_n1_zst_fwd, chunks_exact, fwd, size1, (), mk_unit}
+c08_q! {c08_chunks_exact_n1_zst_rev, chunks_exact, rev, size1, (), mk_unit}
+c08_q! {c08_rchunks_exact_u8_fwd, rchunks_exact, fwd, sized2, u8, mk_u8}
+c08_q! {c08_rchunks_exact_u8_rev, rchunks_exact, rev, sized2, u8, mk_u8}
+c08_q! {c08_rchunks_exact_zst_fwd, rchunks_exact, fwd, sized2, (), mk_unit}
+c08_q! {c08_rchunks_exact_zst_rev, rchunks_exact, rev, sized2, (), mk_unit}
+c08_q! {c08_rchunks_exact_n1_u8_fwd, rchunks_exact, fwd, size1, u8, mk_u8}
+c08_q! {c08_rchunks_exact_n1_u8_rev, rchunks_exact, rev, size1, u8, mk_u8}
+c08_q! {c08_rchunks_exact_n1_zst_fwd, rchunks_exact, fwd, size1, (), mk_unit}
+c08_q! {c08_rchunks_exact_n1_zst_rev, rchunks_exact, rev, size1, (), mk_unit}
+c08_q! {c08_array_chunks1_u8_fwd, array_chunks 1, fwd, unsized, u8, mk_u8}
+c08_q! {c08_array_chunks1_u8_rev, array_chunks 1, rev, unsized, u8, mk_u8}
+c08_q! {c08_array_chunks2_u8_fwd, array_chunks 2, fwd, unsized, u8, mk_u8}
+c08_q! {c08_array_chunks2_u8_rev, array_chunks 2, rev, unsized, u8, mk_u8}
+c08_q! {c08_array_chunks2_zst_fwd, array_chunks 2, fwd, unsized, (), mk_unit}
+c08_q! {c08_array_chunks2_zst_rev, array_chunks 2, rev, unsized, (), mk_unit}
+c08_q! {c08_array_chunks3_u8_fwd, array_chunks 3, fwd, unsized, u8, mk_u8}
+c08_q! {c08_array_chunks3_u8_rev, array_chunks 3, rev, unsized, u8, mk_u8}
+
+// thorough tier: the three ways of stepping mixed in one walk, L = 6
+c08_tm! {c08_iter_u8_mix, iter, mix, unsized, u8, mk_u8}
+c08_tm! {c08_iter_copied_u8_mix, iter_copied, mix, unsized, u8, mk_u8}
+c08_tm! {c08_windows_u8_mix, windows, mix, sized, u8, mk_u8}
+c08_tm! {c08_chunks_u8_mix, chunks, mix, sized2, u8, mk_u8}
+c08_tm! {c08_chunks_n1_u8_mix, chunks, mix, size1, u8, mk_u8}
+c08_tm! {c08_rchunks_u8_mix, rchunks, mix, sized2, u8, mk_u8}
+c08_tm! {c08_rchunks_n1_u8_mix, rchunks, mix, size1, u8, mk_u8}
+c08_tm! {c08_chunks_exact_u8_mix, chunks_exact, mix, sized2, u8, mk_u8}
+c08_tm! {c08_chunks_exact_n1_u8_mix, chunks_exact, mix, size1, u8, mk_u8}
+c08_tm! {c08_rchunks_exact_u8_mix, rchunks_exact, mix, sized2, u8, mk_u8}
+c08_tm! {c08_rchunks_exact_n1_u8_mix, rchunks_exact, mix, size1, u8, mk_u8}
+c08_tm! {c08_array_chunks1_u8_mix, array_chunks 1, mix, unsized, u8, mk_u8}
+c08_tm! {c08_array_chunks2_u8_mix, array_chunks 2, mix, unsized, u8, mk_u8}
+c08_tm! {c08_array_chunks3_u8_mix, array_chunks 3, mix, unsized, u8, mk_u8}
+c08_tm! {c08_chunks_zst_mix, chunks, mix, sized2, (), mk_unit}
+c08_tm! {c08_iter_zst_mix, iter, mix, unsized, (), mk_unit}
 
 // thorough tier: L = 8
-c08_t! {c08_iter_u8_big, iter, unsized, u8, mk_u8}
-c08_t! {c08_iter_copied_u8_big, iter_copied, unsized, u8, mk_u8}
-c08_t! {c08_windows_u8_big, windows, sized, u8, mk_u8}
-c08_t! {c08_chunks_u8_big, chunks, sized2, u8, mk_u8}
-c08_t! {c08_chunks_u8_n1_big, chunks, size1, u8, mk_u8}
-c08_t! {c08_rchunks_u8_big, rchunks, sized2, u8, mk_u8}
-c08_t! {c08_rchunks_u8_n1_big, rchunks, size1, u8, mk_u8}
-c08_t! {c08_chunks_exact_u8_big, chunks_exact, sized2, u8, mk_u8}
-c08_t! {c08_chunks_exact_u8_n1_big, chunks_exact, size1, u8, mk_u8}
-c08_t! {c08_rchunks_exact_u8_big, rchunks_exact, sized2, u8, mk_u8}
-c08_t! {c08_rchunks_exact_u8_n1_big, rchunks_exact, size1, u8, mk_u8}
-c08_t! {c08_array_chunks3_u8_big, array_chunks 3, unsized, u8, mk_u8}
-c08_t! {c08_array_chunks4_u8_big, array_chunks 4, unsized, u8, mk_u8}
-c08_t! {c08_chunks_zst_big, chunks, sized2, (), mk_unit}
-c08_t! {c08_rchunks_exact_zst_big, rchunks_exact, sized2, (), mk_unit}
+c08_t! {c08_iter_u8_fwd_big, iter, fwd, unsized, u8, mk_u8}
+c08_t! {c08_iter_u8_rev_big, iter, rev, unsized, u8, mk_u8}
+c08_t! {c08_iter_copied_u8_fwd_big, iter_copied, fwd, unsized, u8, mk_u8}
+c08_t! {c08_iter_copied_u8_rev_big, iter_copied, rev, unsized, u8, mk_u8}
+c08_t! {c08_windows_u8_fwd_big, windows, fwd, sized, u8, mk_u8}
+c08_t! {c08_windows_u8_rev_big, windows, rev, sized, u8, mk_u8}
+c08_t! {c08_chunks_u8_fwd_big, chunks, fwd, sized2, u8, mk_u8}
+c08_t! {c08_chunks_u8_rev_big, chunks, rev, sized2, u8, mk_u8}
+c08_t! {c08_chunks_n1_u8_fwd_big, chunks, fwd, size1, u8, mk_u8}
+c08_t! {c08_chunks_n1_u8_rev_big, chunks, rev, size1, u8, mk_u8}
+c08_t! {c08_rchunks_u8_fwd_big, rchunks, fwd, sized2, u8, mk_u8}
+c08_t! {c08_rchunks_u8_rev_big, rchunks, rev, sized2, u8, mk_u8}
+c08_t! {c08_rchunks_n1_u8_fwd_big, rchunks, fwd, size1, u8, mk_u8}
+c08_t! {c08_rchunks_n1_u8_rev_big, rchunks, rev, size1, u8, mk_u8}
+c08_t! {c08_chunks_exact_u8_fwd_big, chunks_exact, fwd, sized2, u8, mk_u8}
+c08_t! {c08_chunks_exact_u8_rev_big, chunks_exact, rev, sized2, u8, mk_u8}
+c08_t! {c08_chunks_exact_n1_u8_fwd_big, chunks_exact, fwd, size1, u8, mk_u8}
+c08_t! {c08_chunks_exact_n1_u8_rev_big, chunks_exact, rev, size1, u8, mk_u8}
+c08_t! {c08_rchunks_exact_u8_fwd_big, rchunks_exact, fwd, sized2, u8, mk_u8}
+c08_t! {c08_rchunks_exact_u8_rev_big, rchunks_exact, rev, sized2, u8, mk_u8}
+c08_t! {c08_rchunks_exact_n1_u8_fwd_big, rchunks_exact, fwd, size1, u8, mk_u8}
+c08_t! {c08_rchunks_exact_n1_u8_rev_big, rchunks_exact, rev, size1, u8, mk_u8}
+c08_t! {c08_array_chunks3_u8_fwd_big, array_chunks 3, fwd, unsized, u8, mk_u8}
+c08_t! {c08_array_chunks3_u8_rev_big, array_chunks 3, rev, unsized, u8, mk_u8}
+c08_t! {c08_array_chunks4_u8_fwd_big, array_chunks 4, fwd, unsized, u8, mk_u8}
+c08_t! {c08_array_chunks4_u8_rev_big, array_chunks 4, rev, unsized, u8, mk_u8}
 
 // ---------------------------------------------------------------------------
 // the element iterator as produced by konst's `into_iter!` conversion of slices / array references
